@@ -7,4 +7,23 @@ CONFIG = {
             "text segments never contain a left action/comment delimiter (construction + sanitising); delimiters are drawn so that neither opener is a prefix of the other and contain no '-', quotes, whitespace or alphanumerics",
         ],
     },
+    "C20": {
+        "quick": {"checks": 12000, "shards": 4, "timeout": 600},
+        "thorough": {"checks": 600000, "shards": 14, "timeout": 3000, "shrinktime": "60s"},
+        "assumptions": [
+            "the independent traversal is a reflective walk over exported AST fields (embedded structs included); ListNode, BlockParameterList, the catch wrapper and the catch variable are containers (at most once), everything else must be visited exactly once",
+            "the walk runs in a worker sub-process with a 64 MiB stack limit; worker death = crash, 20 s silence twice = hang",
+        ],
+    },
+    "C02": {
+        "quick": {"checks": 24000, "shards": 4, "timeout": 900,
+                  "extra": [{"test": "TestC02Prefixes", "env": {"JETVERIF_PREFIX_SHARD": i, "JETVERIF_PREFIX_SHARDS": 2}} for i in range(2)]},
+        "thorough": {"checks": 2000000, "shards": 12, "timeout": 6000, "shrinktime": "90s",
+                     "extra": [{"test": "TestC02Prefixes", "env": {"JETVERIF_PREFIX_SHARD": i, "JETVERIF_PREFIX_SHARDS": 2}} for i in range(2)]},
+        "assumptions": [
+            "every case runs in a worker sub-process; worker death = crash; 20 s of silence, twice, = hang; a goroutine with a jet lexer frame still alive 100 ms after the call = leak",
+            "referenced template sets include extends/import cycles (fixed defect; a cycle must be reported as an error)",
+            "structural mistakes are built on top of a generated valid program so that the mistake itself is the only defect",
+        ],
+    },
 }
